@@ -7,6 +7,8 @@
    kind: 0 = not found / expired, 1 = found (n, c), 2 = any other error.  Tick durations are in ms.
    Session codes 8 / 9: a forwarding path (SendCommandToClient / SendHTTPProxyRequest) that only READS the location: no event
    (8), resp. exactly the handshake that completes inside its lookup (9 = code 1's AuthOK; harness hook store).
+   Session code 16: a phase-1 handshake message (no proof; answered with a challenge, Success = false) on any connection — also one that
+   was authenticated earlier, by a control or a tunnel-typed handshake — is NOT a successful handshake: the event AuthFail.
    Session code 13: a handshake that authenticates but whose response cannot be written is NOT a successful handshake: handleHandshake
    returns before any registration = the event AuthFail for the lookup (the runtime-state record is not compared on such histories).
    Session code 7 (StaleSweep n c: the node's periodic sweep finds control connection c silent beyond the heartbeat
@@ -25,7 +27,7 @@ Definition dec_event (v : tval) : event :=
   | 0 => Connect a b
   | 1 | 9 => if shape_is_control (vn (vnth 4 v)) then AuthOK a b c else AuthFail a b
   | 8 | 14 | 15 => AuthFail a 0
-  | 13 => AuthFail a b
+  | 13 | 16 => AuthFail a b
   | 2 => AuthFail a b
   | 3 => Kick a b c
   | 4 => Heartbeat a b
